@@ -193,6 +193,45 @@ func c18ItemToStr(c *Ctx, r *Report, f *FuncRef) {
 			return true
 		})
 	}
+	// "unconditionally": a return that leaves before the left-hand side has been written must carry it itself
+	mentionsLHS := func(root ast.Node) bool {
+		found := false
+		ast.Inspect(root, func(n ast.Node) bool {
+			if se, ok := n.(*ast.SelectorExpr); ok && fieldNamed(cf.info, se, "Name") {
+				if in, ok := cf.resolve(se.X).(*ast.SelectorExpr); ok && fieldNamed(cf.info, in, "LeftPart") && isOwnRule(in.X) {
+					found = true
+				}
+			}
+			return true
+		})
+		return found
+	}
+	lhsWritten := false
+	for _, st := range f.Decl.Body.List {
+		if is, ok := st.(*ast.IfStmt); ok && endsInExit(is.Body) && !lhsWritten {
+			if rt, isR := is.Body.List[len(is.Body.List)-1].(*ast.ReturnStmt); isR {
+				carries := false
+				for _, e := range rt.Results {
+					if mentionsLHS(e) {
+						carries = true
+					}
+				}
+				if !carries {
+					lhsOK = false
+				}
+			}
+			continue
+		}
+		var val ast.Expr
+		if as, ok := st.(*ast.AssignStmt); ok && len(as.Rhs) == 1 {
+			val = as.Rhs[0]
+		} else if _, v, ok := textAppend(cf.info, st); ok {
+			val = v
+		}
+		if val != nil && mentionsLHS(val) {
+			lhsWritten = true
+		}
+	}
 	// early returns before the loop: only for the empty right-hand side
 	earlyWhy := ""
 	for _, st := range f.Decl.Body.List {
